@@ -13,6 +13,12 @@
 (* and TLC checks the design against the declarative predicate:            *)
 (*   EnteredOnlyConsistent == pc = "entered" => Consistent                 *)
 (*   RefusedOnlyInconsistent == pc = "raised" => ~Consistent               *)
+(* The property quantifies over calls whatever was called before: a call   *)
+(* may be PRIMED, i.e. preceded by a consistent call of the same entry     *)
+(* point on the same problem with arguments of equal content (phase 1, no  *)
+(* fault, must enter); the protocol has no memory, so the verdict of the   *)
+(* second call (phase 2) is the same - the replay makes the real code show *)
+(* that too.                                                               *)
 (* Every call is printed with the verdict the property demands             *)
 (* (must_enter / must_refuse) and replayed into the real entry points with *)
 (* the compiled function pointer wrapped by a recorder.                    *)
@@ -23,10 +29,10 @@ Problems == JsonDeserialize(IOEnv.VF_PROBLEMS)
 
 CONSTANT Entries
 
-VARIABLES p, entry, fault, pc, k, outcome
+VARIABLES p, entry, fault, pc, k, outcome, primed, phase
 IsEvaluate == entry \in {"evaluate", "evaluate_cffi"}
 IsMethod == entry \in {"method", "method_cffi"}
-vars == <<p, entry, fault, pc, k, outcome>>
+vars == <<p, entry, fault, pc, k, outcome, primed, phase>>
 
 Pb == Problems[p]
 Params == Pb.params                      \* sequence of [name, modes, ordering, uses]; uses = seq of index lists
@@ -97,13 +103,19 @@ Consistent ==
 \* "method_cffi" / "evaluate_cffi" are the same protocols on the cffi back end (separate functions in the code)
 Init == /\ p \in 1..Len(Problems) /\ entry \in Entries
         /\ fault = NoFault /\ pc = "choose" /\ k = 0 /\ outcome = ""
+        /\ primed \in BOOLEAN /\ phase = IF primed THEN 1 ELSE 2
 
 Choose == /\ pc = "choose"
-          /\ \E f \in Faults : fault' = f
-          /\ pc' = "bind" /\ UNCHANGED <<p, entry, k, outcome>>
+          /\ IF phase = 1 THEN fault' = NoFault ELSE \E f \in Faults : fault' = f
+          /\ pc' = "bind" /\ UNCHANGED <<p, entry, k, outcome, primed, phase>>
 
-Raise(cls) == pc' = "raised" /\ outcome' = cls /\ UNCHANGED <<p, entry, fault, k>>
-Goto(l, i) == pc' = l /\ k' = i /\ UNCHANGED <<p, entry, fault, outcome>>
+\* the priming call has returned: the call under test follows
+Again == /\ pc = "entered" /\ phase = 1
+         /\ phase' = 2 /\ pc' = "choose" /\ outcome' = "" /\ k' = 0
+         /\ UNCHANGED <<p, entry, fault, primed>>
+
+Raise(cls) == pc' = "raised" /\ outcome' = cls /\ UNCHANGED <<p, entry, fault, k, primed, phase>>
+Goto(l, i) == pc' = l /\ k' = i /\ UNCHANGED <<p, entry, fault, outcome, primed, phase>>
 
 Bind == /\ pc = "bind"
         /\ IF Positional THEN Raise("TypeError")
@@ -136,9 +148,9 @@ CheckIndex ==
      ELSE Goto("index", k + 1)
 
 Enter == /\ pc = "enter"
-         /\ pc' = "entered" /\ outcome' = "Entered" /\ UNCHANGED <<p, entry, fault, k>>
+         /\ pc' = "entered" /\ outcome' = "Entered" /\ UNCHANGED <<p, entry, fault, k, primed, phase>>
 
-Next == Choose \/ Bind \/ ReadFormats \/ CheckArg \/ CheckIndex \/ Enter
+Next == Choose \/ Bind \/ ReadFormats \/ CheckArg \/ CheckIndex \/ Enter \/ Again
 Spec == Init /\ [][Next]_vars
 
 EnteredOnlyConsistent == pc = "entered" => Consistent
@@ -147,7 +159,10 @@ RefusedOnlyInconsistent == pc = "raised" => ~Consistent
 Line == [problem |-> Pb.id, entry |-> entry, fault |-> fault,
          args |-> [nm \in Supplied |-> IF nm \in ParamNames THEN Arg(ParamIx(nm))
                                        ELSE [tensor |-> TRUE, modes |-> <<"d">>, ordering |-> <<0>>, dims |-> <<2>>]],
+         base |-> [nm \in ParamNames |-> LET P == Params[ParamIx(nm)] IN
+                     [tensor |-> TRUE, modes |-> P.modes, ordering |-> P.ordering, dims |-> BaseDims(ParamIx(nm))]],
          positional |-> Positional, consistent |-> Consistent, nonnegative |-> NonNegative,
-         model_outcome |-> outcome]
-Emit == pc \notin {"entered", "raised"} \/ PrintT("@@" \o ToJson(Line))
+         model_outcome |-> outcome, primed |-> primed]
+PhaseOneEnters == phase = 1 => pc # "raised"
+Emit == pc \notin {"entered", "raised"} \/ phase = 1 \/ PrintT("@@" \o ToJson(Line))
 =============================================================================
